@@ -421,6 +421,12 @@ Definition dz_get_token (inp : bytes) : option bytes :=
   | [] => None
   | s => Some (dz_take_tok s)
   end.
+(* the same with tok - input, the number of separator bytes skipped in front of the token *)
+Definition dz_get_token_at (inp : bytes) : option (nat * bytes) :=
+  match drop_while dz_is_sep inp with
+  | [] => None
+  | s => Some ((length inp - length s)%nat, dz_take_tok s)
+  end.
 
 Record dz_tx := mk_dz_tx {
   tx_chain : list dz_layer;     (* connp->out_decompressor, [] = NULL *)
@@ -429,7 +435,7 @@ Record dz_tx := mk_dz_tx {
   tx_err : bool                 (* htp_tx_state_response_headers returned HTP_ERROR *)
 }.
 
-(* the token loop of the "multiple ce value case"; fuel = length of the value (each round drops tok_len + 1 >= 1 bytes) *)
+(* the token loop of the "multiple ce value case"; fuel = length of the value (each round drops (tok - input) + tok_len + 1 >= 1 bytes) *)
 Fixpoint dz_tokens (fuel : nat) (input : bytes) (layers nblzma : Z) (chain : list dz_layer) (cep : Z) (w : dz_world) : dz_tx :=
   match fuel with
   | O => mk_dz_tx chain cep w false
@@ -437,9 +443,9 @@ Fixpoint dz_tokens (fuel : nat) (input : bytes) (layers nblzma : Z) (chain : lis
     match input with
     | [] => mk_dz_tx chain cep w false
     | _ :: _ =>
-      match dz_get_token input with
+      match dz_get_token_at input with
       | None => mk_dz_tx chain cep w false
-      | Some tok =>
+      | Some (skipped, tok) =>
         let layers' := layers + 1 in
         if negb (dc_layers c =? 0) && (layers' >? dc_layers c) then mk_dz_tx chain cep w false
         else
@@ -453,7 +459,7 @@ Fixpoint dz_tokens (fuel : nat) (input : bytes) (layers nblzma : Z) (chain : lis
           if stop then mk_dz_tx chain cep w false
           else
             let next_round chain cep w :=
-              let adv := S (length tok) in
+              let adv := (skipped + length tok + 1)%nat in      (* used = (tok - input) + tok_len + 1 *)
               if (length input <=? adv)%nat then mk_dz_tx chain cep w false
               else dz_tokens f (skipn adv input) layers nblzma chain cep w in
             if negb (cetype =? c_dz_COMPRESSION_NONE) then
